@@ -162,6 +162,11 @@ def observe(res, case, S, partner, tags):
         rep = np.vstack([grid[::-1], grid[:2], grid[-1:]])
         gm2 = teneva.get_many(Y, rep.tolist())
         res.check(close(gm2, D[tuple(rep.T)], tol[tuple(rep.T)]), 'get_many.repeats_list', case, 'get_many with repeats / list of lists', tg)
+        for form in (grid[-1:], grid[-1:].tolist()):               # a batch of one row stays a batch
+            g1 = teneva.get_many(Y, form)
+            g1b = teneva.get(Y, form)
+            res.check(np.shape(g1) == (1,) and np.shape(g1b) == (1,) and close(g1, want[-1:], tl[-1:]) and close(g1b, want[-1:], tl[-1:]), 'get_many.one_row', case,
+                      lambda: 'a one-row batch gave shapes %s / %s' % (np.shape(g1), np.shape(g1b)), tg)
         gb = teneva.get(Y, rep)
         res.check(close(gb, D[tuple(rep.T)], tol[tuple(rep.T)]), 'get.batch', case, 'get with a batch', tg)
         F = teneva.full(Y)
